@@ -34,7 +34,7 @@ COMPONENTS = {
     "real": ["canopen.sdo.client.BlockUploadStream", "SdoClient.open/read_response/send_request/abort", "canopen.Network", "io.BufferedReader"],
     "stub": ["CAN backend (SimBus) with fault-injecting transport", "can.Notifier", "time/queue in canopen.sdo.client", "SDO server (RefSdoServer)"],
 }
-PROBES = ["undisturbed-ok", "multi-subblock", "retransmit-requested", "repaired", "crc-in-force", "sdo-error-after-fault", "crc-is-zero", "read-in-pieces"]
+PROBES = ["undisturbed-ok", "multi-subblock", "retransmit-requested", "repaired", "crc-in-force", "sdo-error-after-fault", "crc-is-zero", "read-in-pieces", "caller-stopped-reading-early"]
 
 LENS = (1, 6, 7, 8, 14, 15, 20, 21, 22, 50, 100, 882, 888, 889, 890, 895, 896, 897, 1779)
 CRCM = ((True, True), (True, False), (False, True), (False, False))     # (client requests, server supports)
@@ -176,6 +176,27 @@ def scenario(ctx):
     piece = (0, 0, 1, 3, 10, 100, 1023, 1030)[ctx.choice(8, "piece")]
     if piece:
         ctx.probe("read-in-pieces")
+    if ctx.choice(8, "peek") == 1:
+        # an earlier caller took only the first bytes of a short value from the raw block-upload stream and closed it (the
+        # value fits into one segment, the transfer is complete on the wire, part of the segment was never handed out)
+        pn = 2 + ctx.choice(6, "peeklen")
+        pk = 1 + ctx.choice(pn - 1, "peekk")
+        pv = world.pattern(pn, 99)
+        psub = (sub + 1) % 256
+        srv.store[(index, psub)] = pv
+
+        def peek():
+            fp = node.sdo.open(index, psub, "rb", buffering=0, block_transfer=True, request_crc_support=creq)
+            buf = bytearray(pk)
+            got = fp.readinto(buf)
+            fp.close()
+            return bytes(buf[:got])
+        pres, pexc = call(peek)
+        ctx.drain()
+        if pexc is not None or pres != pv[:pk]:
+            ctx.violation("C13/undisturbed-wrong-data/early-stop", "raw readinto(%d bytes) of the %d-byte value %s, then close(): got %r / %r" % (pk, pn, pv.hex(), pres, pexc))
+        srv.illegal.clear()
+        ctx.probe("caller-stopped-reading-early")
     plan.active = True
     plan.resp = 0
 
